@@ -256,6 +256,7 @@ func (s *StateMachine) Recover(t Task) (_ pb.Snapshot, err error) {
 	if err := s.recover(ss, t.Initial); err != nil {
 		return pb.Snapshot{}, err
 	}
+	verifGate("rsm.Recover.beforeRestoreRemotes", s.node.ShardID(), s.node.ReplicaID())
 	if err := s.node.RestoreRemotes(ss); err != nil {
 		return pb.Snapshot{}, err
 	}
